@@ -17,8 +17,13 @@ CfgLang(j, L) == { Strip(w) : w \in CF!Lang(CF!Gram(j), L) }
 
 (* the PDA the harness built must be the one the generator asked for *)
 JBuild(e) == Chk(Pda(e.P) = Pda(e.spec), "Build.state")
+(* a PDA that has a start state but was never given a start stack symbol has no initial configuration in the textbook
+   sense (is the word accepted by final state at the start state?): its language is not specified, only that the
+   conversions do not fail on it *)
+NoInitialStack(e) == Has(e, "P") /\ e.P.z0 = "none" /\ e.P.start # "none"
 JConv(e) ==
   IF Has(e, "exc") THEN Fl(e.op \o ".noexc")
+  ELSE IF NoInitialStack(e) THEN {<<e.op, "UNSPEC">>}
   ELSE CASE e.op = "to_final_state" ->
               LET P == Pda(e.P) R == Pda(e.R) IN Chk(\A w \in Words(e) : AcceptsFinal(R, w) <=> AcceptsEmpty(P, w), e.op)
          [] e.op = "to_empty_stack" ->
